@@ -92,7 +92,26 @@ def _run_impl(gd: GDef, cfg: dict, opts: dict, starts=None, stop=None, limit_s=6
     return out
 
 
+def bfs_defaults():
+    """Defaults of BfsAlgorithm.bfs, read from the implementation's signature (the properties do not fix them)."""
+    import inspect
+
+    from cayleypy.algo import BfsAlgorithm
+
+    sig = inspect.signature(BfsAlgorithm.bfs).parameters
+    return {k: sig[k].default for k in ("max_layer_size_to_store", "max_layer_size_to_explore", "max_diameter") if k in sig}
+
+
+def with_defaults(opts: dict) -> dict:
+    d = bfs_defaults()
+    out = dict(opts)
+    for k, v in d.items():
+        out.setdefault(k, v)
+    return out
+
+
 def opts_to_line(opts: dict):
+    opts = with_defaults(opts)
     ms = opts.get("max_layer_size_to_store", 1000)
     return " ".join(
         str(x)
